@@ -13,7 +13,8 @@ func lit(s string, v float64) *gen.Num { return &gen.Num{V: v, Lit: s} }
 
 func c08Leaves() (all, small []gen.Expr) {
 	lits := []gen.Expr{lit("0", 0), lit("1", 1), lit("2", 2), lit("3", 3), lit("10", 10), lit("0.5", 0.5), lit(".5", 0.5), lit("1.25", 1.25), lit("999999", 999999), lit("7.", 7)}
-	paths := []gen.Expr{relPath(gen.Ch("a")), relPath(gen.Ch("*")), relPath(gen.At("*")), relPath(gen.Ch("text()")), relPath(gen.Ch("nosuch")), relPath(gen.Dot())}
+	paths := []gen.Expr{relPath(gen.Ch("a")), relPath(gen.Ch("*")), relPath(gen.At("*")), relPath(gen.Ch("text()")), relPath(gen.Ch("nosuch")), relPath(gen.Dot()),
+		relPath(gen.DotDot(), gen.At("*")), relPath(gen.DotDot(), gen.Ch("*")), relPath(gen.DotDot())}
 	all = append(all, lits...)
 	for _, p := range paths {
 		all = append(all, gen.F("count", p), gen.F("sum", p), gen.F("number", p), gen.F("string-length", p))
@@ -24,7 +25,8 @@ func c08Leaves() (all, small []gen.Expr) {
 	all = append(all, gen.F("number"), gen.F("number", gen.F("true")), gen.F("number", gen.F("false")))
 	small = []gen.Expr{lit("0", 0), lit("1", 1), lit("2", 2), lit("0.5", 0.5), lit("10", 10),
 		gen.F("count", relPath(gen.Ch("*"))), gen.F("sum", relPath(gen.At("*"))), gen.F("number", relPath(gen.Dot())),
-		gen.F("number", gen.S("x")), gen.F("string-length", relPath(gen.Ch("text()"))), gen.F("number", relPath(gen.Ch("nosuch")))}
+		gen.F("number", gen.S("x")), gen.F("string-length", relPath(gen.Ch("text()"))), gen.F("number", relPath(gen.Ch("nosuch"))),
+		gen.F("sum", relPath(gen.DotDot(), gen.At("*"))), gen.F("count", relPath(gen.DotDot(), gen.Ch("*"))), relPath(gen.DotDot(), gen.At("a")), relPath(gen.At("a"))}
 	return
 }
 
